@@ -87,6 +87,7 @@ func supervise() {
 		if raw, err := os.ReadFile(c.Replay); err == nil && json.Unmarshal(raw, &f) == nil && f.Case.Kind == "race" {
 			args = []string{"-tier", f.Tier, "-worker"}
 			env = append(env, fmt.Sprintf("VERIF_SEED=%d", f.Seed))
+			c.Seed, c.Tier, c.Thorough = f.Seed, f.Tier, f.Tier == "thorough"
 		}
 	}
 	cmd := exec.Command(os.Args[0], args...)
